@@ -23,6 +23,8 @@ import (
 	"sort"
 	"strconv"
 	"strings"
+	"sync"
+	"sync/atomic"
 	"unicode/utf8"
 
 	"github.com/prometheus/common/model"
@@ -665,6 +667,111 @@ func lexWhole(h *verifx.H, text string) {
 	}
 	h.Obs("%s", b.String())
 	h.Stat("lexall", 1)
+}
+
+// ---------------------------------------------------------------- purity / reentrancy of String()
+//
+// The model's printer is a function of the tree. The real String() must be one too: it may not modify the tree, not even
+// temporarily (several goroutines print the same cached tree). A transient modification is invisible to a single-threaded
+// round trip, so for every accepted tree that holds a range selector with an `@` or offset modifier (the only String
+// method that post-processes a child) K goroutines print the SAME tree N times each while a watcher goroutine keeps reading
+// the modifier fields of its selectors: every output must equal the single-threaded one (print-not-reentrant) and no field
+// may ever differ from its value before printing (printer-mutates-tree). On a correct printer nobody writes, so there is no
+// data race and nothing is reported; the thorough tier runs the same under the Go race detector.
+
+type selSnap struct {
+	vs    *parser.VectorSelector
+	off   int64
+	nEx   int
+	ts    *int64
+	tsVal int64
+	se    parser.ItemType
+}
+
+//go:noinline
+func readSel(vs *parser.VectorSelector) (int64, int, *int64, parser.ItemType) {
+	return vs.OriginalOffset, len(vs.OriginalOffsetEx), vs.Timestamp, vs.StartOrEnd
+}
+
+func (s *selSnap) intact() bool {
+	off, nEx, ts, se := readSel(s.vs)
+	return off == s.off && nEx == s.nEx && ts == s.ts && se == s.se
+}
+
+func modifiedRanges(e parser.Expr, out *[]*selSnap) {
+	if m, ok := e.(*parser.MatrixSelector); ok {
+		if vs, ok := m.VectorSelector.(*parser.VectorSelector); ok &&
+			(vs.OriginalOffset != 0 || len(vs.OriginalOffsetEx) != 0 || vs.Timestamp != nil || vs.StartOrEnd != 0) {
+			sn := &selSnap{vs: vs, off: vs.OriginalOffset, nEx: len(vs.OriginalOffsetEx), ts: vs.Timestamp, se: vs.StartOrEnd}
+			if vs.Timestamp != nil {
+				sn.tsVal = *vs.Timestamp
+			}
+			*out = append(*out, sn)
+		}
+		return
+	}
+	for _, c := range parser.Children(e) {
+		if ce, ok := c.(parser.Expr); ok && ce != nil {
+			modifiedRanges(ce, out)
+		}
+	}
+}
+
+func reentrancy(h *verifx.H, e parser.Expr, src, printed string) {
+	var sels []*selSnap
+	modifiedRanges(e, &sels)
+	if len(sels) == 0 {
+		return
+	}
+	h.Stat("reentrancy.checked", 1)
+	before := ser(e, serOpt{})
+	const K, N = 4, 60
+	var (
+		wg       sync.WaitGroup
+		start    = make(chan struct{})
+		stop     atomic.Bool
+		mutated  atomic.Bool
+		badPrint atomic.Value
+	)
+	for k := 0; k < K; k++ {
+		wg.Add(1)
+		go func() {
+			defer wg.Done()
+			<-start
+			for i := 0; i < N; i++ {
+				s, pp, _ := safeString(e)
+				if pp || s != printed {
+					badPrint.CompareAndSwap(nil, s)
+				}
+			}
+		}()
+	}
+	var ww sync.WaitGroup
+	ww.Add(1)
+	go func() { // watcher
+		defer ww.Done()
+		<-start
+		for !stop.Load() {
+			for _, sn := range sels {
+				if !sn.intact() {
+					mutated.Store(true)
+				}
+			}
+		}
+	}()
+	close(start)
+	wg.Wait()
+	stop.Store(true)
+	ww.Wait()
+	if s, _ := badPrint.Load().(string); badPrint.Load() != nil {
+		h.Viol("print-not-reentrant", "accepted %q; %d goroutines printing the same tree: one printed %q, single-threaded %q", src, K, s, printed)
+		h.Stat("oracle.print-not-reentrant", 1)
+	}
+	after := ser(e, serOpt{})
+	if mutated.Load() || after != before {
+		h.Viol("printer-mutates-tree", "accepted %q; String() changed a modifier field of a range selector's inner selector while printing (tree before %q, after %q)", src, before, after)
+		h.Stat("oracle.printer-mutates-tree", 1)
+	}
 }
 
 // lexObs: the model's `tokOk` must hold for every token the real lexer produced, except a duration that
@@ -1500,6 +1607,14 @@ func checkParse(h *verifx.H, src string, what string) (parsed, bool) {
 }
 
 func runCase(h *verifx.H, r0 *verifx.Rng, src string) {
+	if h.Mode == "reentrancy" { // only the purity / reentrancy oracle (the binary built with -race runs this)
+		if r := safeParse(src); !r.panicked && r.err == nil && r.e != nil {
+			if printed, pp, _ := safeString(r.e); !pp {
+				reentrancy(h, r.e, src, printed)
+			}
+		}
+		return
+	}
 	toks, clean := lexAll(src)
 	if !clean {
 		h.Stat("lex.error", 1)
@@ -1572,6 +1687,9 @@ func runCase(h *verifx.H, r0 *verifx.Rng, src string) {
 		h.Obs("ok %s", ser(r2.e, serOpt{}))
 		wfObs(h, r2.e)
 	}
+
+	// String() is a function of the tree: concurrent printers agree and the tree is never touched
+	reentrancy(h, r.e, src, printed)
 
 	// the direct oracle, independent of the model
 	if node, what, p := smallestFailure(r.e); node != nil {
